@@ -265,7 +265,9 @@ func makeFieldOptValueHandling(h configHandling) func(...string) Option {
 			if o.fieldHandlingTree == nil {
 				o.fieldHandlingTree = newFieldHandlingTree()
 			}
-			o.fieldHandlingTree.merge(table, PathSep(o.pathSep))
+			// field names are written in dot notation whatever separator the configuration's own keys use, and
+			// whether the PathSep option comes before this one, after it or not at all
+			o.fieldHandlingTree.merge(table, PathSep("."))
 		}
 	}
 }
